@@ -73,6 +73,11 @@ package prelude
 
 //@ package github.com/pkg/errors
 
+//@ func New
+//@   trusted
+//@   modifies nothing
+//@   ensures result != nil
+
 //@ func Wrap
 //@   trusted
 //@   modifies nothing
